@@ -131,7 +131,7 @@ def run_c07(prop, tier, seed):
     t0 = time.time()
     binary = V.build_engine(REJECT, "asan")
     # 12 classes x 10 state variants per round
-    cases = 12 * 10 * (10 if tier == "quick" else 330)
+    cases = 12 * 10 * (10 if tier == "quick" else 150)
     res = V.run_sharded(prop, binary, [], cases, seed, tier, V.NCPU, 900 if tier == "quick" else 7200, replay_dir(prop), tag="reject",
                         isolate_args=["--x-isolate", "1"])
     c = res.counters
